@@ -256,6 +256,11 @@ func genCmd(r *rng.R, l byte, arcs bool) cmd {
 					x = 2.5
 				}
 			}
+			if rel && r.P(1, 5) {
+				// radii too small for the chord (F.6.6): the chord is 4..8 times the larger radius
+				f := float64(r.Range(8, 16))
+				x, y = rx*f/2, -ry*f/4
+			}
 			vs = []float64{rx, ry, rot, float64(r.Intn(2)), float64(r.Intn(2)), x, y}
 		} else {
 			for q := 0; q < k; q++ {
